@@ -27,6 +27,12 @@ import DuckModel.Lemmas.PropertiesLemmas
 namespace Duck
 open Duck.JProps
 
+/-- the property as stated (every map with distinct keys comes back): FALSE for the model, as
+    for the code — see `C17_props_roundtrip_full_refuted` and the `C17_props_refuted_…` theorems;
+    `C17_props_roundtrip` proves it on the explicit class where it holds -/
+def C17_props_roundtrip_full : Prop :=
+  ∀ m : Entries, (m.map Prod.fst).Nodup → (roundTrip m).map toMap = .ok m
+
 /-- write then load: the entries come back, in the order they were written
     (no hypothesis on the keys is needed at this level) -/
 theorem C17_props_roundtrip (m : Entries) (hs : safeEntries m = true) (hl : lastValueOk m = true) :
@@ -68,6 +74,11 @@ theorem C17_props_roundtrip_ascii (m : Entries)
 theorem C17_props_safe_class_maximal (c : Char) (h : safeChar c = false) :
     roundTrip [(['k'], [c])] ≠ .ok [(['k'], [c])] :=
   not_safe_bad c h
+
+/-- the reader fails only through escapes: `map_load_properties` of a text without backslash
+    succeeds (whatever else the text contains: comments, blank lines, any separators, non-ASCII) -/
+theorem C17_props_load_total (t : Str) (h : ∀ c ∈ t, c ≠ '\\') : ∃ es, loadProps t = .ok es :=
+  loadProps_noBs t h
 
 /-! ## the recorded finding classes, reproduced by the model -/
 
@@ -121,6 +132,12 @@ theorem C17_props_refuted_escape_cut_at_buffer_end :
     roundTrip [("k".toList, List.replicate 250 'a' ++ ['中'])] = .ok [("k".toList, List.replicate 250 'a' ++ ['中'])] ∧
     roundTrip [("k".toList, List.replicate 256 'a' ++ ['中'])] = .ok [("k".toList, List.replicate 256 'a' ++ ['中'])] := by
   refine ⟨?_, ?_, ?_, ?_⟩ <;> decide +kernel
+
+theorem C17_props_roundtrip_full_refuted : ¬ C17_props_roundtrip_full := by
+  intro h
+  have := h [("k".toList, "a ".toList)] (by decide)
+  revert this
+  decide +kernel
 
 /-! ## Non-vacuity -/
 section Examples
